@@ -26,6 +26,14 @@ def correspondence(ctx):
         for f1 in fill:
             for f2 in fill:
                 cases.append(f'prof|op|enforce|f|b|{hexs([f1, z, f2])}|')
+    # every code point at which any table-driven behaviour changes, alone and next to an ASCII letter
+    bc = boundary_cps(ctx, None if ctx.tier == 'quick' else 11)
+    corr.count('boundary_code_points', len(bc))
+    for prof_, op_ in (('op','prepare'),('op','enforce')):
+        for c_ in bc:
+            cases.append(f'prof|{prof_}|{op_}|f|b|{c_:04X}|')
+            cases.append(f'prof|{prof_}|{op_}|f|b|0061 {c_:04X}|')
+            cases.append(f'prof|{prof_}|{op_}|f|b|{c_:04X} 0041|')
     res = run_cases(cases, ctx.work)
     zset = set(zs)
 
